@@ -349,11 +349,11 @@ func (c *ctx) runRPCChain(ch rpcChain, out chan<- batch) {
 		}
 		b, err := g.Next(spec)
 		if err != nil {
-			res.Note("rpc: chain generator: %v", err)
+			res.Fatalf("rpc: chain generator: %v", err)
 			return
 		}
 		if err := lib.StoreOn(dst, b); err != nil {
-			res.Note("rpc: store block %d: %v", bi, err)
+			res.Fatalf("rpc: store block %d: %v", bi, err)
 			return
 		}
 		if bi != 0 && bi != blocks-1 && bi != blocks/3 && !gr.Chance(1, 2) {
@@ -508,8 +508,8 @@ func (c *ctx) rpcQuery(r *lib.RNG, g *lib.ChainGen, version string, chain rpcCha
 		}
 		hf := hashFnOf(hash)
 		b.checks = append(b.checks,
-			check{line: "vL 001 " + rootHex + " " + kb + p.toks(hf), truth: fhex(want), honest: true, independent: true, sig: sig, replay: mk},
-			check{line: "v2 001 " + rootHex + " " + kb + p.toks(hf), truth: fhex(want), honest: true, independent: true, sig: sig, replay: mk},
+			check{line: "vL 0011 " + rootHex + " " + kb + p.toks(hf), truth: fhex(want), honest: true, independent: true, sig: sig, replay: mk},
+			check{line: "v2 0011 " + rootHex + " " + kb + p.toks(hf), truth: fhex(want), honest: true, independent: true, sig: sig, replay: mk},
 		)
 		// correspondence with the real legacy verifier; its rejection of the empty trie is the known
 		// finding reported by the trie section, not repeated here
